@@ -26,7 +26,13 @@ type wireReq struct {
 }
 
 // peer: answers Echo unless mute, answers Sub with a channel id and one value, then keeps reading.
-func peer(l *verif.Listener, mute bool, faultAfterFirst int) {
+func peer(l *verif.Listener, mute bool, faultAfterFirst int) { peerSub(l, mute, faultAfterFirst, 0) }
+
+// subResults: what a (possibly foreign or misbehaving) peer answers to a subscription
+// request: a channel id, or something that is not one.
+var subResults = []interface{}{3, "not-a-channel-id", map[string]interface{}{"chan": 3}, -3, 2.5}
+
+func peerSub(l *verif.Listener, mute bool, faultAfterFirst int, subResult int) {
 	verif.Daemon()
 	for {
 		pc := l.Accept()
@@ -48,7 +54,7 @@ func peer(l *verif.Listener, mute bool, faultAfterFirst int) {
 					pc.Send(rb)
 				}
 			case "NS.Sub":
-				rb, _ := json.Marshal(map[string]interface{}{"jsonrpc": "2.0", "id": r.ID, "result": 3})
+				rb, _ := json.Marshal(map[string]interface{}{"jsonrpc": "2.0", "id": r.ID, "result": subResults[subResult]})
 				pc.Send(rb)
 				pc.Send([]byte(`{"jsonrpc":"2.0","method":"xrpc.ch.val","params":[3,11]}`))
 			}
@@ -71,8 +77,13 @@ func HarnessCloseWS() {
 	mute := verif.Bool("mute")
 	fault := verif.Choice("fault", verif.Bound("F", 0)*2+1)
 	failDials := verif.Choice("faildials", verif.Bound("R", 0)+1)
+	withStream := verif.Bool("with_stream")
+	subResult := 0
+	if withStream {
+		subResult = verif.Choice("sub_result", len(subResults))
+	}
 	l := verif.ListenWS()
-	go peer(l, mute, fault)
+	go peerSub(l, mute, fault, subResult)
 	var c C
 	closer, err := jsonrpc.NewMergeClient(context.Background(), l.URL(), "NS", []interface{}{&c}, nil,
 		jsonrpc.WithReconnectBackoff(time.Millisecond, 5*time.Millisecond))
@@ -84,7 +95,6 @@ func HarnessCloseWS() {
 	callRet, subRet, chClosed := 0, 0, 0
 	var callVal int64
 	var callErr error
-	withStream := verif.Bool("with_stream")
 	go func() {
 		callVal, callErr = c.Echo(context.Background(), tok)
 		callRet++
